@@ -163,6 +163,7 @@ func (r *replayer) runPath(pi int, path []edge) {
 			rpc = "free" // only a free can have touched the roots without a commit
 		}
 		sig := fmt.Sprintf("replay:%s:%s:%s", rpc, e.Act.Op, field)
+		r.res.Count("mismatching_paths", 1)
 		r.res.Mismatch(sig, fmt.Sprintf("path %d step %d %s: %s", pi, si, hx.JSON(e.Act), desc),
 			map[string]any{"kind": "path", "family": r.in.Family, "allowance": r.in.Allowance, "collateral": r.in.Collateral, "stub": r.in.Stub, "path": path[:si+1]})
 	}
